@@ -43,6 +43,7 @@ func judgeC11(sc *BatchSc, x *batchExec, br batchRun, fail string) Verdict {
 			notStarted++
 		}
 	}
+	lateItems := 0
 	for _, e := range br.Events {
 		if e.Kind != "exec" {
 			continue
@@ -54,6 +55,13 @@ func judgeC11(sc *BatchSc, x *batchExec, br batchRun, fail string) Verdict {
 			late = e.Seq > cancelEv.Seq // sequential: nothing at all after the cancelling callback
 		} else {
 			late = e.Seq > cancelEv.Seq && e.Epoch >= x.cancelEpoch // concurrent: parked ones were started earlier
+		}
+		if late && e.Attempt == 0 && sc.C >= 2 && !cp.Before {
+			// "at most one already-committed item per other worker when concurrent"
+			lateItems++
+			if lateItems <= sc.C-1 {
+				continue
+			}
 		}
 		if late {
 			what := "item"
